@@ -49,8 +49,11 @@ pub(crate) fn coerce_variable_values(
             )?;
             coerced_values.insert(key.clone(), value);
         } else if let Some(default) = &variable_def.default_value {
-            let value =
-                graphql_value_to_json(&format_args!("default value of variable {name}"), default)?;
+            let description = format_args!("default value of variable {name}");
+            let value = graphql_value_to_json(&description, default)?;
+            // The default value is coerced like a provided value:
+            // a single value for a list type is wrapped, input object field defaults are filled in
+            let value = coerce_variable_value(schema, &description, &variable_def.ty, &value)?;
             coerced_values.insert(name, value);
         } else if variable_def.ty.is_non_null() {
             return Err(InputCoercionError::ValueError {
@@ -188,10 +191,10 @@ fn coerce_variable_value(
                             field_value,
                         )?
                     } else if let Some(default) = &field_def.default_value {
-                        let default = graphql_value_to_json(
-                            &format_args!("input field {ty_name}.{field_name}"),
-                            default,
-                        )?;
+                        let description = format_args!("input field {ty_name}.{field_name}");
+                        let default = graphql_value_to_json(&description, default)?;
+                        let default =
+                            coerce_variable_value(schema, &description, &field_def.ty, &default)?;
                         object.insert(field_name.as_str(), default);
                     } else if field_def.ty.is_non_null() {
                         return Err(InputCoercionError::ValueError {
